@@ -411,12 +411,16 @@ theorem finish_first_call_zlib (z out : Array UInt8) (zr : ZInflated)
 
 open Model.Core Model.InflB Spec in
 /-- what `Safe` says, spelled out for the first call that reports stream end: all the plaintext has been
-    handed over and exactly `L` bytes of input — the encoded length of the stream — have been consumed -/
+    handed over, exactly `L` bytes of input — the encoded length of the stream — have been consumed, and
+    STREAM END IS STABLE: every later call of the session, whatever it is offered, reports stream end
+    again, consumes nothing and hands over nothing (`Lemmas/CoreDone`: `Done` is absorbing for the
+    decoder model, the zlib checksum comparison included; `ended_call`) -/
 theorem safe_stream_end (P : Array UInt8) (L : Nat) : ∀ (rs : List (Nat × Nat × Model.InflB.CallRes)) (D : Array UInt8) (C : Nat), Model.Core.Safe P L D C rs →
     ∀ k, k < rs.length → (∀ j, j < k → (rs[j]?.map (·.2.2.status)) ≠ some Model.InflB.rStreamEnd) →
       (rs[k]?.map (·.2.2.status)) = some Model.InflB.rStreamEnd →
       D ++ Model.InflB.delivered (rs.take (k + 1)) = P ∧
-      C + ((rs.take (k + 1)).map (·.2.2.consumed)).sum = L := by
+      C + ((rs.take (k + 1)).map (·.2.2.consumed)).sum = L ∧
+      (∀ x ∈ rs.drop (k + 1), x.2.2.status = Model.InflB.rStreamEnd ∧ x.2.2.consumed = 0 ∧ x.2.2.out = #[]) := by
   intro rs
   induction rs with
   | nil => intro D C _ k hk; exact absurd hk (Nat.not_lt_zero _)
@@ -428,9 +432,10 @@ theorem safe_stream_end (P : Array UInt8) (L : Nat) : ∀ (rs : List (Nat × Nat
     | zero =>
       simp only [List.getElem?_cons_zero, Option.map_some, Option.some.injEq] at hend
       rw [if_pos hend] at hs2
-      show D ++ Model.InflB.delivered [(n, room, r)] = P ∧ C + ([(n, room, r)].map (·.2.2.consumed)).sum = L
+      show D ++ Model.InflB.delivered [(n, room, r)] = P ∧ C + ([(n, room, r)].map (·.2.2.consumed)).sum = L ∧
+        (∀ x ∈ rest, x.2.2.status = Model.InflB.rStreamEnd ∧ x.2.2.consumed = 0 ∧ x.2.2.out = #[])
       rw [Model.InflB.delivered_cons, Model.InflB.delivered_nil, Array.append_empty]
-      exact ⟨hs2.1, by simpa using hs2.2⟩
+      exact ⟨hs2.1, by simpa using hs2.2.1, hs2.2.2⟩
     | succ k =>
       have h0 := hbefore 0 (Nat.succ_pos _)
       simp only [List.getElem?_cons_zero, Option.map_some, ne_eq, Option.some.injEq] at h0
@@ -438,7 +443,7 @@ theorem safe_stream_end (P : Array UInt8) (L : Nat) : ∀ (rs : List (Nat × Nat
       have := ih (D ++ r.out) (C + r.consumed) hs2 k (by simpa using hk)
         (fun j hj => by have := hbefore (j + 1) (by omega); simpa using this)
         (by simpa using hend)
-      rw [List.take_succ_cons, Model.InflB.delivered_cons, ← Array.append_assoc, List.map_cons, List.sum_cons, ← Nat.add_assoc]
+      rw [List.take_succ_cons, Model.InflB.delivered_cons, ← Array.append_assoc, List.map_cons, List.sum_cons, ← Nat.add_assoc, List.drop_succ_cons]
       exact this
 
 /-- … and for every call before that: no data error, counts within bounds, a prefix of the plaintext. -/
